@@ -229,3 +229,39 @@ func VP_C06_TokenIssuance() {
 	}
 	vpCover("end")
 }
+
+// VP_C06_RequestsAreJudgedOnTheirOwn: a request without credentials is refused whatever was served
+// just before it on the same endpoint - nothing of an earlier (authorised) request carries over.
+func VP_C06_RequestsAreJudgedOnTheirOwn() {
+	f, err := NewWebSessionFactory(vpLifetime * time.Second)
+	if err != nil {
+		panic("setup")
+	}
+	fake := vpScriptStore()
+	st := vpFakeStore(fake)
+	handlers := []vpHandler{handleWebAdd, handleWebRemove, handleWebSetAdmin, handleWebList, handleWebListFull, handleWebUpdate}
+	ep := vpChoose("endpoint", 6)
+	// first: an administrator's well-formed request
+	_, _, admin := f.Generate("bob", true)
+	first := map[string]interface{}{"session": admin, "username": "eve", "password": "secret", "newpassword": "secret", "admin": true}
+	vpServe(handlers[ep], st, f, vpNewRecorder(), vpReqWith(vpJSON(first)))
+	n0 := len(fake.calls)
+	// then: the same endpoint, no usable credential in the body
+	second := map[string]interface{}{}
+	switch vpChoose("second-body", 4) {
+	case 0: // empty object
+	case 1: // everything but the credential
+		second["username"], second["password"], second["newpassword"], second["admin"] = "eve", "secret", "secret", true
+	case 2: // explicit null
+		second["session"], second["username"] = nil, "eve"
+	case 3: // another user's fields only
+		second["username"], second["admin"] = "mallory", true
+	}
+	rec := vpNewRecorder()
+	vpServe(handlers[ep], st, f, rec, vpReqWith(vpJSON(second)))
+	vpAssert("handler-does-not-panic", !rec.panicked)
+	vpAssert("credential-less-request-sends-nothing-to-the-store", len(fake.calls) == n0)
+	vpAssert("credential-less-request-gets-non-success-status", rec.status != 200 && rec.status != 0)
+	vpAssert("credential-less-request-discloses-no-list", !rec.disclosedList())
+	vpCover("end")
+}
